@@ -3,6 +3,8 @@
 #![allow(dead_code, unused_imports)]
 include!(concat!(env!("OUT_DIR"), "/repo_mods.rs"));
 mod bridge;
+mod fuzzdecode;
+mod fuzzrun;
 mod gen;
 mod oracle;
 mod props;
